@@ -40,15 +40,26 @@ theorem runModel_append (nc : ChunkStore.NodeCfg) (w : ChunkStore.World) (a b : 
     ChunkStore.runModel nc w (a ++ b) = ChunkStore.runModel nc (ChunkStore.runModel nc w a) b := by
   simp [ChunkStore.runModel, List.foldl_append]
 
-theorem agree_step (cfg : Cfg) {s : State} {w : ChunkStore.World} (h : Agree s w) (op : Op) :
+/-- without persistence (the C05 node model has no storage directory) the record `ChunkStore::put` keeps is the
+    in-memory one, whatever the file system did -/
+theorem putF_not_persisted (c : ChunkStore.Cfg) (hp : c.persistent = false) (φ : ChunkStore.Faults) (r : ChunkStore.Recs)
+    (fs : ChunkStore.FS) (pend : List ChunkStore.Name) (id : String) (data : ChunkStore.Bytes) :
+    (ChunkStore.putF c φ r fs pend id data).persisted = false := by
+  simp [ChunkStore.putF, hp]
+
+theorem agree_step (cfg : Cfg) (hp : cfg.node.store.persistent = false) {s : State} {w : ChunkStore.World}
+    (h : Agree s w) (op : Op) :
     Agree (step cfg s op) (ChunkStore.runModel cfg.node w (toC01 op)) := by
   obtain ⟨h1, h2, h3⟩ := h
   cases op with
   | adv d => exact ⟨by show s.now + d = w.now + d; rw [h1], h2, h3⟩
   | store c ttl hint =>
     refine ⟨h1, ?_, h3⟩
-    show ChunkStore.put cfg.node.store s.recs s.now c [] [] (ChunkStore.nodeTtl cfg.node ttl) [] true = _
-    rw [h1, h2]; rfl
+    show ChunkStore.put cfg.node.store s.recs s.now c [] [] (ChunkStore.nodeTtl cfg.node ttl) [] true =
+      ChunkStore.aset w.sys.recs c (ChunkStore.mkRecP cfg.node.store w.now [] [] (ChunkStore.nodeTtl cfg.node ttl) [] true
+        (ChunkStore.putF cfg.node.store [] w.sys.recs w.sys.fs w.sys.pending c []).persisted)
+    rw [putF_not_persisted _ hp, h1, h2]
+    simp only [ChunkStore.put, ChunkStore.mkRecP, ChunkStore.mkRec, hp]
   | ingest c e same => obtain ⟨a, b, c', _⟩ := ingest_frame cfg s c e same; exact ⟨a.trans h1, c'.trans h2, b.trans h3⟩
   | announce c e same p pid addr ttl hint =>
     obtain ⟨a, b, c', _⟩ := announce_frame cfg s c e same p pid addr ttl hint; exact ⟨a.trans h1, c'.trans h2, b.trans h3⟩
@@ -62,7 +73,7 @@ theorem agree_step (cfg : Cfg) {s : State} {w : ChunkStore.World} (h : Agree s w
     show Agree (tick cfg s) (ChunkStore.step cfg.node w .tick).1
     have hg : gate cfg s = decide (w.now - w.lastCleanup ≥ cfg.node.cleanupInterval * ChunkStore.nsPerSec) := by
       rw [Bool.eq_iff_iff, gate_iff]; simp [ChunkStore.nsPerSec, h1, h3]
-    simp only [tick, ChunkStore.step, ChunkStore.nodeTick]
+    simp only [tick, ChunkStore.step, ChunkStore.stepF, ChunkStore.nodeTickF]
     by_cases hc : w.now - w.lastCleanup ≥ cfg.node.cleanupInterval * ChunkStore.nsPerSec
     · have hg' : gate cfg s = true := by rw [hg]; simpa using hc
       simp only [hg', if_true, hc]
@@ -72,18 +83,19 @@ theorem agree_step (cfg : Cfg) {s : State} {w : ChunkStore.World} (h : Agree s w
       simp only [hg', Bool.false_eq_true, if_false, hc]
       exact ⟨h1, h2, h3⟩
 
-theorem agree_run (cfg : Cfg) {r : Run} {w : ChunkStore.World} (h : Agree r.s w) (ops : List Op) :
+theorem agree_run (cfg : Cfg) (hp : cfg.node.store.persistent = false) {r : Run} {w : ChunkStore.World} (h : Agree r.s w)
+    (ops : List Op) :
     Agree (run cfg r ops).s (ChunkStore.runModel cfg.node w (c01Hist ops)) := by
   induction ops generalizing r w with
   | nil => exact h
   | cons op ops ih =>
     simp only [run, List.foldl_cons, c01Hist, List.flatMap_cons]
     rw [runModel_append]
-    exact ih (r := exec cfg r op) (agree_step cfg h op)
+    exact ih (r := exec cfg r op) (agree_step cfg hp h op)
 
-theorem agree_reach (cfg : Cfg) (t0 : Int) (ops : List Op) :
+theorem agree_reach (cfg : Cfg) (hp : cfg.node.store.persistent = false) (t0 : Int) (ops : List Op) :
     Agree (C05.reach cfg t0 ops).s (ChunkStore.runModel cfg.node (ChunkStore.fresh t0 []) (c01Hist ops)) :=
-  agree_run cfg (r := Run.init cfg t0) ⟨rfl, rfl, rfl⟩ ops
+  agree_run cfg hp (r := Run.init cfg t0) ⟨rfl, rfl, rfl⟩ ops
 
 /-! ### C06 -/
 
